@@ -237,7 +237,7 @@ func Run(r *report.Run) int {
 	}
 	plans := []exhPlan{
 		{false, 3, 1, r.Pick(5, 6)}, {false, 3, 0, r.Pick(6, 7)}, {false, 3, 2, r.Pick(4, 5)},
-		{true, 3, 1, r.Pick(4, 5)}, {true, 4, 0, r.Pick(5, 6)}, {true, 3, 2, r.Pick(4, 5)},
+		{true, 3, 1, r.Pick(4, 5)}, {true, 4, 0, r.Pick(5, 6)}, {true, 3, 2, 4},
 	}
 	var cases []ExhCase
 	for _, bal := range []bool{false, true} {
